@@ -10,7 +10,7 @@ Input  (TAB separated): `dev  gen  v4  v6  raw`
                    kind = p|d|o|6   app, known = 0|1
          anchors : `key>acl` joined by `,`
 Output: `err <kind> <n>`  or
-        `ok <TAB> name:id,id,…;… <TAB> key=id,id,…;…  (Cisco: ACL bound by each anchor, sorted by key) <TAB> W:n,n,…` -/
+        `ok <TAB> name:id,id,…;… <TAB> key=id,id,…;…  (Cisco: ACL bound by each anchor, sorted by key) <TAB> W:n,n,… <TAB> key>acl,… <TAB> S6:0|1` -/
 namespace NA.Drv.C18
 open NA.C18 NA.IOUtil
 
@@ -79,7 +79,9 @@ def showResult (r : Result) : String :=
   let bound := bound.foldl (fun acc x => insertSorted x acc) []
   let bs := ";".intercalate (bound.map (fun x => s!"{x.1}={x.2}"))
   let ws := r.warn.foldl (fun acc x => insertSorted (x, "") acc) []
-  s!"ok\t{conts}\t{bs}\tW:{joinComma (ws.map (fun x => toString x.1))}"
+  let anch := r.conf.anchors.foldl (fun acc k => insertSorted (k.key, toString k.acl) acc) []
+  let an := joinComma (anch.map (fun x => s!"{x.1}>{x.2}"))
+  s!"ok\t{conts}\t{bs}\tW:{joinComma (ws.map (fun x => toString x.1))}\t{an}"
 
 def answer (line : String) : String :=
   match line.splitOn "\t" with
@@ -87,8 +89,12 @@ def answer (line : String) : String :=
     match parseDev d, parseFile f4, parseFile f6, parseFile fr with
     | some dev, some v4, some v6, some raw =>
       let gen := if g == "old" then Gen.old else Gen.new
+      -- hypothesis of `cisco_netspoc_lines_kept_partial` for the IPv6 stage (classifies F-C18g)
+      let s6 := match dev with
+        | .asa | .ios => safeMerge dev gen (v4.toConf dev) v6
+        | _ => true
       match loadSpoc dev gen v4 v6 raw with
-      | .ok r => showResult r
+      | .ok r => showResult r ++ (if s6 then "\tS6:1" else "\tS6:0")
       | .error e => showErr e
     | _, _, _, _ => "bad-input"
   | _ => "bad-input"
